@@ -206,6 +206,9 @@ func ruleR32R33(c *Ctx) {
 						} else {
 							c.r.bad("R32", key, m.pos(x.Pos()), "slice over an array element whose length is not bounded by the array length", props...)
 						}
+					} else if ok, n := c.slicePairAtCalls(m.ByName[fnName()], x); ok {
+						counts["P4 unsafe.Slice(leaf pointer field, leaf length field)"]++
+						c.r.ok("R32", key, m.pos(x.Pos()), fmt.Sprintf("a helper around unsafe.Slice: each of its %d call sites passes the pointer and length fields of one leaf", n), props...)
 					} else {
 						c.r.bad("R32", key, m.pos(x.Pos()), "unsafe.Slice whose pointer and length are not a field pair of one leaf", props...)
 					}
@@ -404,4 +407,46 @@ func (c *Ctx) inDeadBranch(stack []ast.Node) bool {
 		}
 	}
 	return false
+}
+
+
+// slicePairAtCalls: unsafe.Slice(p, n) inside a helper whose p and n are parameters – every call
+// site must pass the pointer field and the length field of one and the same leaf.
+func (c *Ctx) slicePairAtCalls(u *FuncUnit, call *ast.CallExpr) (bool, int) {
+	info := c.m.Info
+	if u == nil || u.Lit != nil || len(call.Args) != 2 {
+		return false, 0
+	}
+	strip := func(e ast.Expr) ast.Expr {
+		for {
+			e = ast.Unparen(e)
+			if cv, ok := e.(*ast.CallExpr); ok && isConversion(info, cv) && len(cv.Args) == 1 {
+				e = cv.Args[0]
+				continue
+			}
+			return e
+		}
+	}
+	pid, ok1 := strip(call.Args[0]).(*ast.Ident)
+	nid, ok2 := strip(call.Args[1]).(*ast.Ident)
+	if !ok1 || !ok2 {
+		return false, 0
+	}
+	pi, ni := c.m.paramIndex(u, pid), c.m.paramIndex(u, nid)
+	if pi < 0 || ni < 0 {
+		return false, 0
+	}
+	sites := c.callSitesOf(u)
+	for _, s := range sites {
+		pa, na := argFor(s.call, pi), argFor(s.call, ni)
+		if pa == nil || na == nil {
+			return false, 0
+		}
+		ps, okp := strip(pa).(*ast.SelectorExpr)
+		ls, okl := strip(na).(*ast.SelectorExpr)
+		if !okp || !okl || identVar(info, ps.X) == nil || identVar(info, ps.X) != identVar(info, ls.X) {
+			return false, 0
+		}
+	}
+	return len(sites) > 0, len(sites)
 }
